@@ -4,8 +4,8 @@
    literal strings, whitespace) are covered by the correspondence run against an independent TOML
    reader. *)
 From Coq Require Import List NArith Bool.
-From TT Require Import Lib.BytesL Lib.Base64 Model.TlsDemux Model.Settings Generated.SettingsFacts
-  Proofs.SettingsProofs.
+From TT Require Import Lib.BytesL Lib.Base64 Model.TlsDemux Spec.SniRouting Model.Settings Generated.SettingsFacts
+  Proofs.SettingsProofs Proofs.TlsDemuxProofs.
 Import ListNotations.
 Open Scope N_scope.
 
@@ -41,29 +41,31 @@ Theorem start_refused_iff :
 Proof. exact start_refused_iff_proof. Qed.
 Print Assumptions start_refused_iff.
 
-(* duplicate host names (or no main host) are refused; unloadable ones fail TlsDemux::new *)
+(* no main host, or a name (host name or alternative SNI) that two different host entries claim, is refused;
+   unloadable certificates - a file without any certificate included - fail the loaders (LOAD_CERTS_REFUSES_EMPTY_CHAIN) *)
 Theorem hosts_refused_iff :
-  forall c, valid_hosts c = false <-> (c_main c = [] \/ nodupb (all_names c) = false).
-Proof.
-  intros c. unfold valid_hosts. rewrite andb_false_iff, negb_false_iff. split.
-  - intros [H|H]; [left; destruct (c_main c); [reflexivity|discriminate]|right; exact H].
-  - intros [H|H]; [left; rewrite H; reflexivity|right; exact H].
-Qed.
+  forall c, valid_hosts c = false <-> (c_main c = [] \/ ~ one_entry_per_name (claims c)).
+Proof. exact hosts_refused_iff_proof. Qed.
 Print Assumptions hosts_refused_iff.
 
-(* accepted exactly when there is a main host and no name occurs twice anywhere in the four groups *)
+(* accepted exactly when there is a main host and every name designates at most one entry of the four groups *)
 Theorem hosts_accepted_iff :
-  forall c, valid_hosts c = true <->
-            (c_main c <> [] /\ NoDup (main_names c ++ c_ping c ++ c_speed c ++ c_rp c)).
+  forall c, valid_hosts c = true <-> (c_main c <> [] /\ one_entry_per_name (claims c)).
 Proof. exact hosts_accepted_iff_proof. Qed.
 Print Assumptions hosts_accepted_iff.
+
+(* in particular no host name occurs twice anywhere in the four groups *)
+Theorem accepted_host_names_are_distinct :
+  forall c, valid_hosts c = true -> NoDup (main_names c ++ c_ping c ++ c_speed c ++ c_rp c).
+Proof. exact valid_hosts_names_distinct. Qed.
+Print Assumptions accepted_host_names_are_distinct.
 
 (* the code still has the modelled shape *)
 Theorem settings_code_as_modelled :
   CLIENTS_READ_AS_TOML_STRINGS = true /\ CLIENTS_EMPTY_FIELDS_REFUSED = true
   /\ SETTINGS_VALIDATE_AS_MODELLED = true /\ REVERSE_PROXY_VALIDATE_AS_MODELLED = true
   /\ CORE_NEW_VALIDATES = true /\ REGISTRY_AUTH_AS_MODELLED = true /\ CLIENT_CONFIG_COPIES_PAIR = true
-  /\ TLS_HOSTS_UNIQUE_ACROSS_GROUPS = true.
+  /\ TLS_HOSTS_UNIQUE_ACROSS_GROUPS = true /\ LOAD_CERTS_REFUSES_EMPTY_CHAIN = true.
 Proof. repeat split; exact eq_refl. Qed.
 Print Assumptions settings_code_as_modelled.
 
@@ -75,3 +77,15 @@ Example ex_validate :
                  s_rp := Some {| rp_port := 80; rp_mask := [47; 120] |};
                  s_h1 := false; s_h2 := true; s_h3 := false; s_clients := [] |} = None.
 Proof. vm_compute. split; reflexivity. Qed.
+
+Example ex_hosts :
+  let h n a := {| mh_name := n; mh_alts := a |} in
+  let c m := {| c_main := m; c_rp := [[114]]; c_ping := [[112]]; c_speed := []; c_h1 := true; c_h2 := true; c_h3 := false;
+                c_rp_enabled := true |} in
+  valid_hosts (c [h [97] [[120]; [97]; [120]]; h [98] [[121]]]) = true        (* names repeated within an entry *)
+  /\ valid_hosts (c [h [97] [[120]]; h [98] [[121]; [120]]]) = false           (* an alternative SNI of two main hosts *)
+  /\ valid_hosts (c [h [97] [[98]]; h [98] []]) = false                        (* ... that is the name of a later host *)
+  /\ valid_hosts (c [h [97] []; h [98] [[97]]]) = false                        (* ... of an earlier host *)
+  /\ valid_hosts (c [h [97] [[112]]]) = false                                  (* ... of a ping host *)
+  /\ valid_hosts (c [h [97] [[114]]]) = false.                                 (* ... of a reverse-proxy host *)
+Proof. vm_compute. repeat split. Qed.
